@@ -34,7 +34,7 @@ Val(i) == <<"val", i>>
    id: name (the harness maps it to a yarel expression building a FRESH value of that description)
    k: representation (the Value variant);  cls: the class get_class returns (a method-table name)   *)
 V(id, k, cls) == [id |-> id, k |-> k, cls |-> cls, a |-> <<"str">>, bytes |-> <<>>, es |-> <<>>, hash |-> FALSE,
-                  ar |-> 0, st |-> "", fields |-> {}, recv |-> "", meth |-> "", b |-> 0, e |-> 0]
+                  ar |-> 0, st |-> "", fields |-> {}, recv |-> "", meth |-> "", b |-> 0, e |-> 0, et |-> "x"]
 NumV(id, a) == [V(id, "num", "Num") EXCEPT !.a = a, !.hash = TRUE]
 StrV(id, bs) == [V(id, "str", "String") EXCEPT !.bytes = bs, !.hash = TRUE]
 VecV(id, es) == [V(id, "vec", "Vec") EXCEPT !.es = es]
@@ -47,10 +47,10 @@ Nums == { NumV("n0", I(0)), NumV("nm0", I(0)), NumV("n1", I(1)), NumV("nm1", I(-
 Strs == { StrV("s_empty", <<>>), StrV("s_a", <<97>>), StrV("s_e", <<195, 169>>), StrV("s_ae", <<97, 195, 169>>), StrV("s_12", <<49, 50>>) }
 Vecs == { VecV("v_empty", <<>>), VecV("v_3", <<I(10), I(11), I(12)>>), VecV("v_bytes", <<I(104), I(105)>>), VecV("v_bad", <<I(104), <<"str">>>>),
           VecV("v_300", <<I(300)>>), VecV("v_half", <<<<"frac">>>>), VecV("v_neg", <<I(-1)>>), VecV("v_c3", <<I(195)>>), VecV("v_surr", <<I(55296)>>),
-          VecV("v_nan", <<<<"nan">>>>), VecV("v_200", <<I(200)>>), [VecV("v_self", <<I(1), <<"str">>>>) EXCEPT !.st = "self"],
-          VecV("v_nest", <<<<"str">>, <<"str">>>>) }
-Tups == { TupV("t_empty", <<>>, TRUE), TupV("t_1", <<I(1)>>, TRUE), TupV("t_2", <<I(1), <<"str">>>>, TRUE), TupV("t_vec", <<<<"str">>>>, FALSE) }
-Maps == { [V("m_empty", "map", "HashMap") EXCEPT !.b = 0], [V("m_1", "map", "HashMap") EXCEPT !.b = 1], [V("m_self", "map", "HashMap") EXCEPT !.b = 1, !.st = "self"] }
+          VecV("v_nan", <<<<"nan">>>>), VecV("v_200", <<I(200)>>), [VecV("v_self", <<I(1), <<"str">>>>) EXCEPT !.st = "self", !.et = "[1, [...]]"],
+          VecV("v_nest", <<<<"str">>, <<"str">>>>), [VecV("v_heap", <<<<"str">>, <<"str">>>>) EXCEPT !.et = "(1, [2])"] }
+Tups == { TupV("t_empty", <<>>, TRUE), TupV("t_1", <<I(1)>>, TRUE), TupV("t_2", <<I(1), <<"str">>>>, TRUE), TupV("t_vec", <<<<"str">>>>, FALSE), TupV("t_heap", <<<<"str">>, <<"str">>>>, FALSE) }
+Maps == { [V("m_empty", "map", "HashMap") EXCEPT !.b = 0], [V("m_1", "map", "HashMap") EXCEPT !.b = 1], [V("m_self", "map", "HashMap") EXCEPT !.b = 1, !.st = "self"], [V("m_heap", "map", "HashMap") EXCEPT !.b = 1] }
 Ranges == { [V("r_03", "range", "Range") EXCEPT !.b = 0, !.e = 3, !.hash = TRUE], [V("r_30", "range", "Range") EXCEPT !.b = 3, !.e = 0, !.hash = TRUE],
             [V("r_m21", "range", "Range") EXCEPT !.b = -2, !.e = -1, !.hash = TRUE], [V("r_11", "range", "Range") EXCEPT !.b = 1, !.e = 1, !.hash = TRUE] }
 Classes == { [V("c_A", "class", "AClass") EXCEPT !.hash = TRUE], [V("c_String", "class", "StringClass") EXCEPT !.hash = TRUE],
@@ -125,14 +125,14 @@ AsIntOf(v, i) ==
     ELSE LET r == S!AsInt(v.a) IN [ok |-> r.ok, n |-> r.n, err |-> FromS(r.err)]
 
 (* the elements of a vector argument of String.from_ascii / from_utf8 / from_code_points, in order *)
-RECURSIVE FirstElemErr(_, _, _)
-FirstElemErr(es, j, limitMsg) ==        \* -> 0 = none, else the outcome of the first offending element
+RECURSIVE FirstElemErr(_, _, _, _)
+FirstElemErr(es, j, limitMsg, et) ==        \* -> 0 = none, else the outcome of the first offending element
     IF j > Len(es) THEN OkR
     ELSE LET x == es[j] IN
-         IF ~S!IsNumArg(x) THEN Err("TypeError", <<"Expected a number but found '", S!ArgText(x), "'.">>)
+         IF ~S!IsNumArg(x) THEN Err("TypeError", <<"Expected a number but found '", et, "'.">>)     \* et: the printed form of the vector's non-number elements
          ELSE IF x[1] # "int" \/ x[2] < 0 \/ (limitMsg = "256" /\ x[2] > 255)
               THEN Err("ValueError", <<"Expected a positive integer less than ", limitMsg, " but found '", S!ArgText(x), "'.">>)
-         ELSE FirstElemErr(es, j + 1, limitMsg)
+         ELSE FirstElemErr(es, j + 1, limitMsg, et)
 Ints(es) == [j \in 1..Len(es) |-> es[j][2]]
 
 (* ---- calls ------------------------------------------------------------------------------------- *)
@@ -168,8 +168,7 @@ NativeOutcome(cls, name, r, args, ri) ==
       [] cls = "StringClass" /\ name = "from" -> Arity(1, OkR)
       [] cls = "StringClass" /\ name \in {"from_ascii", "from_utf8", "from_code_points"} ->
             Arity(1, IF A(1).k # "vec" THEN Err("TypeError", <<"Expected a Vec instance but found '", Val(AI(1)), "'.">>)
-                     ELSE IF A(1).st = "self" THEN Err("TypeError", <<"Expected a number but found '", "[1, [...]]", "'.">>)
-                     ELSE LET fe == FirstElemErr(A(1).es, 1, IF name = "from_code_points" THEN "4294967295" ELSE "256") IN
+                     ELSE LET fe == FirstElemErr(A(1).es, 1, IF name = "from_code_points" THEN "4294967295" ELSE "256", A(1).et) IN
                           IF fe.c # "ok" THEN fe
                           ELSE IF name = "from_ascii" THEN OkR
                           ELSE IF name = "from_utf8" THEN FromS(S!FromUtf8(Ints(A(1).es)))
